@@ -123,10 +123,10 @@ func (g *gitem) String() string {
 type kind uint8
 
 const (
-	kUint    kind = iota // n = bits
+	kUint kind = iota // n = bits
 	kBool
-	kBig     // *big.Int
-	kBigVal  // big.Int
+	kBig    // *big.Int
+	kBigVal // big.Int
 	kString
 	kBytes
 	kByteArr // [n]byte
@@ -139,11 +139,12 @@ const (
 )
 
 type fieldDesc struct {
-	d        *desc
-	nilTag   string // "", "nil", "nilString", "nilList"
-	optional bool
-	tail     bool
-	ignore   bool
+	d          *desc
+	nilTag     string // "", "nil", "nilString", "nilList"
+	optional   bool
+	tail       bool
+	ignore     bool
+	unexported bool // static types only: implies ignore
 }
 
 func (f fieldDesc) tag() string {
@@ -240,8 +241,8 @@ func (d *desc) walk(seen map[*desc]bool, f func(*desc, *fieldDesc)) {
 // features of a type that decide which oracle clauses apply.
 type feat struct {
 	optional, tail, raw, iface bool
-	byteArr1                  bool // holds a [1]byte: go-ethereum v1.9.15 mis-decodes [1]byte{0} (ignores the error of s.Uint() and desynchronises)
-	nestLSL                   bool // a list inside a struct inside a list (the DESIGN non-trivial rule)
+	byteArr1                   bool // holds a [1]byte: go-ethereum v1.9.15 mis-decodes [1]byte{0} (ignores the error of s.Uint() and desynchronises)
+	nestLSL                    bool // a list inside a struct inside a list (the DESIGN non-trivial rule)
 }
 
 func (d *desc) features() feat {
@@ -453,16 +454,16 @@ func nilIsString(elem *desc, nilTag string) bool {
 type fault int
 
 const (
-	fNone         fault = iota
-	fLongForm           // long-form header (1 length byte) for a payload < 56
-	fLongFormZ          // long-form header, 2 length bytes with a leading zero, for a payload < 256
-	fLeadZeroLen        // long-form payload >= 56 with an extra leading zero byte in the length
-	fWrap1              // single byte < 0x80 written as 0x81 xx
-	fIntLeadZero        // integer with a zero byte prepended
-	fHuge               // header claims a huge size
-	fSizePlus           // header claims one byte more than present
-	fSizeMinus          // header claims one byte less than present
-	fKindSwap           // string written with a list header or the reverse
+	fNone        fault = iota
+	fLongForm          // long-form header (1 length byte) for a payload < 56
+	fLongFormZ         // long-form header, 2 length bytes with a leading zero, for a payload < 256
+	fLeadZeroLen       // long-form payload >= 56 with an extra leading zero byte in the length
+	fWrap1             // single byte < 0x80 written as 0x81 xx
+	fIntLeadZero       // integer with a zero byte prepended
+	fHuge              // header claims a huge size
+	fSizePlus          // header claims one byte more than present
+	fSizeMinus         // header claims one byte less than present
+	fKindSwap          // string written with a list header or the reverse
 	nHeaderFaults
 	fTrunc // applied after serialisation
 	fTrail
@@ -482,7 +483,7 @@ type encCtx struct {
 	faultAt int   // index of the emission that gets the fault (-1: none)
 	f       fault // which fault
 	huge    uint64
-	applied fault // what was really applied (a non-applicable fault falls back)
+	applied fault    // what was really applied (a non-applicable fault falls back)
 	info    []emInfo // recorded when faultAt < 0: what each emission looks like (to aim faults)
 }
 
